@@ -725,12 +725,26 @@ def join_av(a, b):
               tags=a.tags | b.tags, indef=a.indef or b.indef,
               dmust=(a.dmust & b.dmust) if (a.dmust is not None and b.dmust is not None) else None,
               dmay=(a.dmay | b.dmay) if (a.dmay is not None and b.dmay is not None) else None,
-              dvals=dvals, ref=a.ref if a.ref == b.ref else None, ext=a.ext if a.ext == b.ext else None,
+              dvals=dvals, ref=_join_ref(a, b, kind), ext=a.ext if a.ext == b.ext else None,
               rel=a.rel if a.rel == b.rel else None, parts=a.parts if a.parts == b.parts else None,
               note=vset if (vset is not None and (a.note == b.note or a.note is None or b.note is None) and
                             not isinstance(a.note, tuple) and not isinstance(b.note, tuple)) or
               (vset is not None and all(isinstance(x.note, tuple) and x.note[:1] == ("in",) or x.has_const() for x in (a, b)))
               else (a.note if a.note == b.note else None))
+
+
+def _join_ref(a, b, kind):
+    """one of a few known callables (a function chosen by a test, an entry of a dispatch table selected by an unknown key)"""
+    if a.ref == b.ref:
+        return a.ref
+    if kind != K_FUNC or a.ref is None or b.ref is None:
+        return None
+    ms = []
+    for r_ in (a.ref, b.ref):
+        for m_ in (r_[1] if r_[0] == "set" else (r_,)):
+            if not any(m_ is x or m_ == x for x in ms):
+                ms.append(m_)
+    return ("set", tuple(ms)) if len(ms) <= 6 else None
 
 
 def weaken_av(v, pc):
